@@ -1,4 +1,5 @@
 import GomlVerif.Model.Go
+import GomlVerif.Model.GoEq
 import GomlVerif.Gen.DceTables
 /-
 Model of `crates/compiler/src/go/dce.rs` over the Lean Go AST (`Model/Go.lean`):
@@ -821,9 +822,11 @@ mutual
 /-- the liveness-dependent part of the contract, following the same backward scan as `dceStmts`:
     * every initialiser / stored value the pass deletes satisfies `P` (the caller's "cannot fail,
       cannot write" predicate);
-    * a variable assigned in a loop body is neither live after the loop nor live at the start of
-      an iteration (`dce.rs` analyses a loop body once, with the live set after the loop, and
-      treats `break` as falling through). -/
+    * loops: `dce.rs` analyses a loop body once, with the live set after the loop, and treats
+      `break` as falling through.  That is sound when (i) no variable assigned in the body is live
+      after the loop and (ii) the one pass is already the fixpoint: analysing the body again with
+      the loop-back live set `H = live ∪ live-in(body)` gives the same block and a live-in set
+      inside `H`. -/
 def semOK (P : GExpr → Bool) : List GStmt → Names → Bool
   | [], _ => true
   | s :: rest, liveOut =>
@@ -834,8 +837,11 @@ def semOKStmt (P : GExpr → Bool) : GStmt → Names → Bool
   | .varDecl _ _ none, _ => true
   | .assign x v, live => live.contains x || exprEffects (dceExpr v) || P (dceExpr v)
   | .loop body, live =>
-    (writesStmts body).all (fun x => !(live.contains x) && !((dceStmts body live).live.contains x))
-      && semOK P body live
+    (writesStmts body).all (fun x => !(live.contains x))
+      && eqStmts (dceStmts body (uni live (dceStmts body live).live)).out (dceStmts body live).out
+      && (dceStmts body (uni live (dceStmts body live).live)).live.all
+           (fun x => (uni live (dceStmts body live).live).contains x)
+      && semOK P body (uni live (dceStmts body live).live)
   | .ite _ t (some b), live => semOK P t live && semOK P b live
   | .ite _ t none, live => semOK P t live
   | .switch _ cs (some b), live => semOKCases P cs live && semOK P b (dceCases cs live).live
